@@ -116,7 +116,7 @@ func main() {
 			if r.Intn(2) == 0 {
 				g = node.RandomChange(r, 7, 6)
 			}
-			cfg := node.Config{Genesis: g, Universe: 7, BatchSize: 6, MaxBlockCache: 4 + r.Intn(30), KeepEventsForHeights: []int{-1, 0, 2, 300}[r.Intn(4)]}
+			cfg := node.Config{Genesis: g, Universe: 7, BatchSize: 6, MaxBlockCache: 2 + r.Intn(12), KeepEventsForHeights: []int{-1, 0, 2, 300}[r.Intn(4)]}
 			a, err := node.New(cfg)
 			if err != nil {
 				k.Inconclusive("node-init")
@@ -221,6 +221,15 @@ func main() {
 						}
 					}
 					checkCacheAgainstDB(a, k, "after-delete")
+					if _, err := a.Chain.DataAccess().GetBlockHeader(b.Header.ID); err == nil {
+						k.Violation("index:removed-block-still-served-by-id", "a removed block is still returned by GetBlockHeader(id)", wit)
+					}
+					if hd, err := a.Chain.DataAccess().GetBlockHeaderByHeight(b.Header.Height); err == nil && bytes.Equal(hd.ID, b.Header.ID) {
+						k.Violation("index:removed-block-still-served-by-height", "a removed block is still returned by GetBlockHeaderByHeight", wit)
+					}
+					if blk, err := a.Chain.DataAccess().GetBlock(b.Header.ID); err == nil && blk != nil {
+						k.Violation("index:removed-block-still-served-by-id", "a removed block is still returned by GetBlock(id)", wit)
+					}
 				}
 				if deleted == 0 {
 					// nothing was deleted (finality caught up): bring the twin level and continue
